@@ -293,7 +293,13 @@ def r_c20(p):
     return c20.replay_c20(p)
 
 
+def r_c07(p):
+    from . import c07
+    return c07.replay_c07(p)
+
+
 REPLAYERS = {
+    'c07': r_c07,
     'c20': r_c20,
     'c19': r_c19,
     'c19_exception': r_c19,
